@@ -16,6 +16,7 @@
  * Observation: `r=<result or -> <dump>`.
  *
  * The render buffer is malloc()ed and vc_line/vc_col are not initialised by tickit_renderbuffer_new;
+ * (since 85271b4 `save` also copies vc_pos_set, so the garbage is never observable through the public API)
  * `save` copies them.  ASan fills fresh allocations with 0xbe, so the indeterminate value is the
  * int 0xbebebebe = -1094795586 in every run; the model takes it as an explicit parameter of `new`.
  */
